@@ -109,8 +109,14 @@ class DirHandler(BaseHandler):
             return False
 
         if time.time() - statval[stat.ST_MTIME] < self.cachetime:
-            with self.vfs.open(self.cachename, "rb") as fp:
-                self.fileentries = pickle.load(fp)
+            try:
+                with self.vfs.open(self.cachename, "rb") as fp:
+                    self.fileentries = pickle.load(fp)
+            except Exception:
+                # A truncated, damaged or vanished cache file (e.g. a writer
+                # that was killed, or one we are racing with) is not an
+                # error: fall back to generating the listing.
+                return False
             self.fromcache = True
             return True
         return False
